@@ -94,7 +94,8 @@ def sys_isa_yaml(cfg) -> str:
         data = '  data:\n' + ''.join(f'    - name: "{n}"\n      address: {a}\n      value: {v}\n      size: {s}\n' for n, a, v, s in cfg['data'])
     syms = ''
     if cfg['syms']:
-        syms = '  symbols:\n' + ''.join(f'    - name: "{n}"\n      value: "{v}"\n' for n, v in cfg['syms'])
+        # a value of None is an explicit null in the file ("value:"): a symbol that is defined and stands for no text
+        syms = '  symbols:\n' + ''.join(f'    - name: "{n}"\n      value:' + ('' if v is None else f' "{v}"') + '\n' for n, v in cfg['syms'])
     pre = ''
     if zones or consts or data or syms:
         pre = 'predefined:\n' + zones + consts + data + syms
@@ -412,7 +413,7 @@ def config_term(cfg) -> str:
     zones = '[' + '; '.join(f'({C.coq_string_codes(n)}, {C.zlit(s)}, {C.zlit(e)})' for n, s, e in cfg['zones']) + ']'
     consts = '[' + '; '.join(f'({C.coq_string_codes(n)}, {C.zlit(v)})' for n, v in cfg['consts']) + ']'
     data = '[' + '; '.join(f'({C.coq_string_codes(n)}, {C.zlit(a)}, {C.zlit(v)}, {C.zlit(s)})' for n, a, v, s in cfg['data']) + ']'
-    syms = '[' + '; '.join(f'({C.coq_string_codes(n)}, {C.coq_string_codes(v)})' for n, v in cfg['syms']) + ']'
+    syms = '[' + '; '.join(f'({C.coq_string_codes(n)}, {C.coq_string_codes(v or "")})' for n, v in cfg['syms']) + ']'
     cli = '[' + '; '.join(f'({C.coq_string_codes(n)}, {C.coq_string_codes(v)})' for n, v in cfg['cli']) + ']'
     return (f'{{| c_addr_bits := {cfg["addr_bits"]}; c_origin := {C.zlit(cfg["origin"])}; c_page := {C.zlit(cfg["page"])}; '
             f'c_registers := {str_list(REGISTERS)}; c_keywords := {str_list(KEYWORDS)}; c_pre_zones := {zones}; '
@@ -589,6 +590,10 @@ def layout_stmt(rng, opts, st):
             for i, o in enumerate(ops):
                 text += (sep() if i else '') + o
         return text
+    if k == 'const' and opts.get('ws') and rng.random() < 0.4:
+        # the EQU spelling of a constant definition, any horizontal whitespace around the keyword
+        eq = rng.choice(['EQU', 'equ', 'Equ']) if opts.get('case') else 'EQU'
+        return st[1] + _ws(rng, opts, 1) + eq + _ws(rng, opts, 1) + expr_text(st[2])
     return stmt_text(st).strip()
 
 
@@ -609,7 +614,7 @@ def render_layout(stmts, seed, file_index, opts=None):
         text = layout_stmt(rng, opts, st)
         indent = _ws(rng, opts, 0) if opts.get('ws') else ('    ' if k not in ('label', 'org', 'memzone', 'align') and not text.startswith('#') else '')
         if k == 'label' and opts.get('label_same_line') and i + 1 < n and rng.random() < 0.5 \
-                and stmts[i + 1][0] in ('instr', 'asm', 'data', 'fill', 'zero', 'zerountil', 'str'):
+                and stmts[i + 1][0] in ('instr', 'asm', 'data', 'fill', 'zero', 'zerountil', 'str', 'org', 'memzone', 'align'):
             nxt = layout_stmt(rng, opts, stmts[i + 1])
             text = text + _ws(rng, opts, 1 if not opts.get('ws') else rng.choice([0, 1, 2])) + nxt
             i += 1
